@@ -1,5 +1,6 @@
 import GcArena.Proofs.LogRun
 import GcArena.Proofs.DebtMono
+import GcArena.Proofs.LegacyLemmas
 /-!
 # C10 — Metrics are truthful (property theorems)
 
@@ -153,6 +154,36 @@ theorem counters_bounded (n : Nat) (ops : List Op) (halive : ((Arena.new n).run 
     simp only [m]
     omega
 
+
+/-! ### The repaired defect D1, by name -/
+
+/-- The shape of corpus/C10-D1-untraced-underflow.ops: `finish_marking`, then inside `finalize` a
+    value of a non-tracing type is allocated and a forward barrier blackens it (`mark_one` never
+    traces it: `traced` stays 0). -/
+def d1Ops : List Op := [
+  .collect .finishMarking .finalize none (some [.wake, .markStep none, .markBreak]),
+  .enter .finalize, .alloc false [], .barrier (.fb none 0) ]
+
+/-- **Witness of the repaired defect D1.**  In the state after `d1Ops` (Mark phase; object 0 held,
+    black, of a non-tracing type; `traced = 0`; no underflow so far) the backward (write) barrier
+    on object 0
+    * over the **pre-repair** `mark_gc_untraced` (`Metrics.markGcUntracedLegacy`,
+      Model/Legacy.lean: a plain `usize` subtraction) underflows — the debug build panics, the
+      release build wraps and wipes the debt;
+    * over the repaired, saturating one does not — at the level of `Context::backward_barrier`
+      and of the API operation alike (and never does, in any history: `count_exact`).
+    A regression of the repair makes the implementation agree with the first half again. -/
+theorem pinned_underflow_witness :
+    ((Arena.new 4).run d1Ops).alive = true ∧ ((Arena.new 4).run d1Ops).holds (.strong 0) = true ∧
+    ((Arena.new 4).run d1Ops).ctx.phase = .mark ∧
+    (((Arena.new 4).run d1Ops).ctx.heap.get 0).map (fun o => (o.color, o.needsTrace))
+      = some (.black, false) ∧
+    ((Arena.new 4).run d1Ops).ctx.metrics.traced = 0 ∧
+    ((Arena.new 4).run d1Ops).ctx.metrics.underflow = false ∧
+    (((Arena.new 4).run d1Ops).ctx.backwardBarrierLegacy 0 none).metrics.underflow = true ∧
+    (((Arena.new 4).run d1Ops).ctx.backwardBarrier 0 none).metrics.underflow = false ∧
+    (((Arena.new 4).run d1Ops).step (.barrier (.bb 0 none))).1.ctx.metrics.underflow = false := by
+  decide
 
 /-- Non-vacuity: a concrete metrics state with positive debt. -/
 example : (0 : Rat) < ({ Metrics.new with totalGcs := 3, allocated := 3 } : Metrics).allocationDebt := by
